@@ -1,4 +1,312 @@
 /-
-  C06 — beam search.  Property theorems only (filled in as proofs land).
+  C06 — beam search: soundness for EVERY score function (the scores enter only through the oracle
+  `select`), and exactness when the beam is never pruned.  Property theorems only; proofs in
+  `CvProofs/Beam.lean` (which builds on `CvProofs/Paths.lean` for `PathHyp`, `IsBall`, `IsInvMap`).
 -/
-import CvModel.Beam
+import CvProofs.Beam
+namespace Cv
+
+/-! ### the concrete graph of the non-vacuity examples: the 6-cycle on `Nat` -/
+
+/-- generator 0 is `+1`, generator 1 is `-1` (mod 6) on the states `0..5`; identity hash.  (States `≥ 6` are
+isolated fixed points, so that the generators are bijections of `Nat` and `PathHyp` can hold.) -/
+def c6b : Graph Nat :=
+  { nGens := 2, act := fun i x => if x < 6 then (if i = 0 then (x + 1) % 6 else (x + 5) % 6) else x,
+    hash := fun x => (x : Int), invClosed := true, batchSize := 100 }
+/-- the inverted copy: the two generators swapped -/
+def c6bi : Graph Nat :=
+  { nGens := 2, act := fun i x => if x < 6 then (if i = 0 then (x + 5) % 6 else (x + 1) % 6) else x,
+    hash := fun x => (x : Int), invClosed := true, batchSize := 100 }
+
+theorem c6b_pathHyp : PathHyp c6b c6bi where
+  hashEq := rfl
+  nGens := rfl
+  inv := by
+    intro i hi x
+    have hi : i < 2 := hi
+    simp only [c6b, c6bi]
+    rcases (by omega : i = 0 ∨ i = 1) with rfl | rfl <;> simp <;> constructor <;> (repeat' split) <;> omega
+  inj := by intro a b hab; simp only [c6b] at hab; omega
+
+/-- evaluation of the beam on concrete inputs (`uniqueStates` uses merge sort, which `decide` cannot
+reduce; `simp` with the equation lemmas can) -/
+local macro "beam_eval" : tactic =>
+  `(tactic| simp [beamSimple, simpleLoop, beamAdvanced, advLoop, writeColumn, checkPathFound, Graph.unique,
+      Graph.neighbors, uniqueStates, sortByKey, dedupAdj, List.mergeSort, List.MergeSort.Internal.splitInTwo,
+      gather, restorePath, findPathFrom, findPathTo, revertPathM, isinSorted, searchsorted, c6b, c6bi,
+      List.range, List.range.loop, List.findIdx?, List.findIdx?.go])
+
+variable {α : Type}
+
+/-! ### soundness -/
+
+/-- simple mode without a ball: a reported success is a real walk of the reported length, and a returned
+path is a valid generator word of that length leading from the start state to the central state -/
+theorem beamSimple_sound_noball (g gi : Graph α) (h : PathHyp g gi) (invMap : Option (List Nat)) (central start : α)
+    (c : SimpleCfg α) (hb : c.ball = none) (r : BeamRes)
+    (hr : beamSimple g gi invMap central start c = some r) (hf : r.found = true) :
+    Walk g.nb r.length start central ∧
+    ∀ p, r.path = some p → p.length = r.length ∧ (∀ i ∈ p, i < g.nGens) ∧ applyPath g.act start p = central := by
+  exact BW.beamSimple_sound_noball' g gi h invMap central start c hb r hr hf
+
+/-- non-vacuity: beam width 1 on the 6-cycle from state 3, two different score oracles; both succeed and
+return a path -/
+example : beamSimple c6b c6bi none 0 3
+    { beamWidth := 1, maxSteps := 5, returnPath := true, ball := none, select := fun _ _ => [0] } =
+    some { found := true, length := 3, path := some [1, 1, 1] } := by beam_eval
+example : beamSimple c6b c6bi none 0 3
+    { beamWidth := 1, maxSteps := 5, returnPath := true, ball := none, select := fun _ _ => [1] } =
+    some { found := true, length := 3, path := some [0, 0, 0] } := by beam_eval
+/-- all hypotheses instantiated at once; the conclusion is a genuine fact about the 6-cycle -/
+example : Walk c6b.nb 3 3 0 ∧ applyPath c6b.act 3 [1, 1, 1] = 0 := by
+  have h := beamSimple_sound_noball c6b c6bi c6b_pathHyp none 0 3
+    { beamWidth := 1, maxSteps := 5, returnPath := true, ball := none, select := fun _ _ => [0] } rfl
+    { found := true, length := 3, path := some [1, 1, 1] } (by beam_eval) rfl
+  exact ⟨h.1, (h.2 [1, 1, 1] rfl).2.2⟩
+
+
+/-- simple mode with a ball (meet in the middle), inverse-closed generators -/
+theorem beamSimple_sound_ball (g gi : Graph α) (h : PathHyp g gi) (hsym : Symm g.nb) (m : List Nat) (hm : IsInvMap g m)
+    (central start : α) (c : SimpleCfg α) (ball : List (List Int)) (hb : c.ball = some ball) (hball : IsBall g central ball)
+    (hne : ball ≠ []) (r : BeamRes)
+    (hr : beamSimple g gi (some m) central start c = some r) (hf : r.found = true) :
+    Walk g.nb r.length start central ∧
+    ∀ p, r.path = some p → p.length = r.length ∧ applyPath g.act start p = central := by
+  obtain ⟨h1, h2⟩ := BW.beamSimple_sound_ball' g gi h hsym m hm central start c ball hb hball hne r hr hf
+  exact ⟨h1, fun p hp => ⟨(h2 p hp).1, (h2 p hp).2.2⟩⟩
+
+/-- (slightly more than requested) the returned path also uses valid generator indices only -/
+theorem beamSimple_sound_ball_valid (g gi : Graph α) (h : PathHyp g gi) (hsym : Symm g.nb) (m : List Nat)
+    (hm : IsInvMap g m) (central start : α) (c : SimpleCfg α) (ball : List (List Int)) (hb : c.ball = some ball)
+    (hball : IsBall g central ball) (hne : ball ≠ []) (r : BeamRes)
+    (hr : beamSimple g gi (some m) central start c = some r) (hf : r.found = true) :
+    ∀ p, r.path = some p → ∀ i ∈ p, i < g.nGens := by
+  exact fun p hp =>
+    ((BW.beamSimple_sound_ball' g gi h hsym m hm central start c ball hb hball hne r hr hf).2 p hp).2.1
+
+theorem c6b_symm : Symm c6b.nb := by
+  intro x y hy
+  rw [BW.mem_nb] at *
+  obtain ⟨i, hi, rfl⟩ := hy
+  have hi : i < 2 := hi
+  rcases (by omega : i = 0 ∨ i = 1) with rfl | rfl
+  · exact ⟨1, by decide, ((c6b_pathHyp.symm.inv 1 (by decide) x).1).symm⟩
+  · exact ⟨0, by decide, ((c6b_pathHyp.symm.inv 0 (by decide) x).1).symm⟩
+
+theorem c6b_invMap : IsInvMap c6b [1, 0] := by
+  refine ⟨rfl, ?_⟩
+  intro i hi
+  have hi : i < 2 := hi
+  rcases (by omega : i = 0 ∨ i = 1) with rfl | rfl
+  · exact ⟨1, rfl, by decide, fun x => (c6b_pathHyp.symm.inv 1 (by decide) x).1⟩
+  · exact ⟨0, rfl, by decide, fun x => (c6b_pathHyp.symm.inv 0 (by decide) x).1⟩
+
+/-- the ball of radius 1 around state 0 of the 6-cycle -/
+theorem c6b_ball : IsBall c6b 0 [[0], [1, 5]] := by
+  have hnb0 : c6b.nb 0 = [1, 5] := by decide
+  intro i H hi
+  match i, hi with
+  | 0, hi =>
+    cases hi
+    refine ⟨by simp, [0], by simp, ?_, by simp [c6b]⟩
+    intro x
+    simp [DistLayer, reach_zero]
+  | 1, hi =>
+    cases hi
+    refine ⟨by decide, [1, 5], by decide, ?_, by simp [c6b]⟩
+    intro x
+    have hr1 : Reach c6b.nb [0] 1 x ↔ x ∈ [1, 5] := by
+      rw [reach_succ]
+      constructor
+      · rintro ⟨y, hy, hxy⟩
+        rw [reach_zero, List.mem_singleton] at hy
+        rw [hy, hnb0] at hxy; exact hxy
+      · intro hx
+        exact ⟨0, (reach_zero ..).2 (by simp), by rw [hnb0]; exact hx⟩
+    constructor
+    · intro hx
+      refine ⟨hr1.2 hx, ?_⟩
+      intro j hj hr
+      have : j = 0 := by omega
+      subst this
+      rw [reach_zero] at hr
+      simp only [List.mem_cons, List.not_mem_nil, or_false] at hx hr
+      omega
+    · intro hx; exact hr1.1 hx.1
+  | i + 2, hi => simp at hi
+
+/-- non-vacuity: beam width 1 from state 3 with the radius-1 ball around 0 (`c6b_pathHyp`, `c6b_symm`,
+`c6b_invMap`, `c6b_ball` discharge the hypotheses): the second beam step (`i = 1`) hits ball layer `j = 1` in
+the middle state 1, reported length `1 + 1 + 1 = 3`, path = beam part `[1, 1]` ++ ball part `[1]` -/
+example : beamSimple c6b c6bi (some [1, 0]) 0 3
+    { beamWidth := 1, maxSteps := 5, returnPath := true, ball := some [[0], [1, 5]], select := fun _ _ => [0] } =
+    some { found := true, length := 3, path := some [1, 1, 1] } := by beam_eval
+
+/-- all hypotheses instantiated at once -/
+example : Walk c6b.nb 3 3 0 ∧ applyPath c6b.act 3 [1, 1, 1] = 0 := by
+  have h := beamSimple_sound_ball c6b c6bi c6b_pathHyp c6b_symm [1, 0] c6b_invMap 0 3
+    { beamWidth := 1, maxSteps := 5, returnPath := true, ball := some [[0], [1, 5]], select := fun _ _ => [0] }
+    [[0], [1, 5]] rfl c6b_ball (by simp)
+    { found := true, length := 3, path := some [1, 1, 1] } (by beam_eval) rfl
+  exact ⟨h.1, (h.2 [1, 1, 1] rfl).2⟩
+
+/-- advanced mode (history of banned states): a reported success is a real walk of the reported length -/
+theorem beamAdvanced_sound [DecidableEq α] (g : Graph α) (hinj : Function.Injective g.hash) (start dest : α)
+    (c : AdvCfg α) (r : BeamRes)
+    (hr : beamAdvanced g start dest c = some r) (hf : r.found = true) : Walk g.nb r.length start dest := by
+  exact BW.beamAdvanced_sound' g hinj start dest c r hr hf
+
+/-- non-vacuity: history depth 3, beam width 2 on the 6-cycle -/
+example : beamAdvanced c6b 3 0 { beamWidth := 2, maxSteps := 10, historyDepth := 3, select := fun i _ => [i % 2] } =
+    some { found := true, length := 3, path := none } := by beam_eval
+example : Walk c6b.nb 3 3 0 :=
+  beamAdvanced_sound c6b c6b_pathHyp.inj 3 0
+    { beamWidth := 2, maxSteps := 10, historyDepth := 3, select := fun i _ => [i % 2] }
+    { found := true, length := 3, path := none } (by beam_eval) rfl
+
+/-! ### corollaries: reported length ≥ true distance; unreachable target ⇒ never "found" -/
+
+/-- simple mode, no ball: the central state has a distance class from the start state and the reported
+length is at least that distance -/
+theorem beam_length_ge_dist (g gi : Graph α) (h : PathHyp g gi) (invMap : Option (List Nat)) (central start : α)
+    (c : SimpleCfg α) (hb : c.ball = none) (r : BeamRes)
+    (hr : beamSimple g gi invMap central start c = some r) (hf : r.found = true) :
+    (∃ d, DistLayer g.nb [start] d central) ∧ ∀ d, DistLayer g.nb [start] d central → d ≤ r.length := by
+  exact BW.walk_dist_le (BW.beamSimple_sound_noball' g gi h invMap central start c hb r hr hf).1
+
+/-- simple mode with a ball -/
+theorem beam_length_ge_dist_ball (g gi : Graph α) (h : PathHyp g gi) (hsym : Symm g.nb) (m : List Nat)
+    (hm : IsInvMap g m) (central start : α) (c : SimpleCfg α) (ball : List (List Int)) (hb : c.ball = some ball)
+    (hball : IsBall g central ball) (hne : ball ≠ []) (r : BeamRes)
+    (hr : beamSimple g gi (some m) central start c = some r) (hf : r.found = true) :
+    (∃ d, DistLayer g.nb [start] d central) ∧ ∀ d, DistLayer g.nb [start] d central → d ≤ r.length := by
+  exact BW.walk_dist_le (BW.beamSimple_sound_ball' g gi h hsym m hm central start c ball hb hball hne r hr hf).1
+
+/-- advanced mode -/
+theorem beam_length_ge_dist_advanced [DecidableEq α] (g : Graph α) (hinj : Function.Injective g.hash)
+    (start dest : α) (c : AdvCfg α) (r : BeamRes)
+    (hr : beamAdvanced g start dest c = some r) (hf : r.found = true) :
+    (∃ d, DistLayer g.nb [start] d dest) ∧ ∀ d, DistLayer g.nb [start] d dest → d ≤ r.length := by
+  exact BW.walk_dist_le (BW.beamAdvanced_sound' g hinj start dest c r hr hf)
+
+/-- simple mode, no ball: an unreachable central state is never reported as found -/
+theorem beam_unreachable_not_found (g gi : Graph α) (h : PathHyp g gi) (invMap : Option (List Nat)) (central start : α)
+    (c : SimpleCfg α) (hb : c.ball = none) (hun : ∀ n, ¬ Walk g.nb n start central) (r : BeamRes)
+    (hr : beamSimple g gi invMap central start c = some r) : r.found = false := by
+  cases hf : r.found with
+  | false => rfl
+  | true => exact absurd (BW.beamSimple_sound_noball' g gi h invMap central start c hb r hr hf).1 (hun _)
+
+/-- simple mode with a ball -/
+theorem beam_unreachable_not_found_ball (g gi : Graph α) (h : PathHyp g gi) (hsym : Symm g.nb) (m : List Nat)
+    (hm : IsInvMap g m) (central start : α) (c : SimpleCfg α) (ball : List (List Int)) (hb : c.ball = some ball)
+    (hball : IsBall g central ball) (hne : ball ≠ []) (hun : ∀ n, ¬ Walk g.nb n start central) (r : BeamRes)
+    (hr : beamSimple g gi (some m) central start c = some r) : r.found = false := by
+  cases hf : r.found with
+  | false => rfl
+  | true =>
+    exact absurd (BW.beamSimple_sound_ball' g gi h hsym m hm central start c ball hb hball hne r hr hf).1 (hun _)
+
+/-- advanced mode -/
+theorem beam_unreachable_not_found_advanced [DecidableEq α] (g : Graph α) (hinj : Function.Injective g.hash)
+    (start dest : α) (c : AdvCfg α) (hun : ∀ n, ¬ Walk g.nb n start dest) (r : BeamRes)
+    (hr : beamAdvanced g start dest c = some r) : r.found = false := by
+  cases hf : r.found with
+  | false => rfl
+  | true => exact absurd (BW.beamAdvanced_sound' g hinj start dest c r hr hf) (hun _)
+
+/-- walks of the 6-cycle stay inside `0..5`, and after `n` steps from state 3 the position is within
+circular distance `n` of 3 -/
+theorem c6b_walk3 : ∀ n x, Walk c6b.nb n 3 x → x < 6 ∧ 3 ≤ x + n ∧ x ≤ 3 + n := by
+  intro n x w
+  generalize hs : (3 : Nat) = s at w
+  induction w with
+  | nil => omega
+  | snoc _ hc ih =>
+    obtain ⟨i, _, rfl⟩ := (BW.mem_nb _ _ _).1 hc
+    have := ih hs
+    simp only [c6b, this.1, if_true]
+    split <;> omega
+
+/-- non-vacuity of the unreachability hypothesis: state 7 is an isolated fixed point of `c6b`, so it is not
+reachable from state 3; both modes report "not found" -/
+theorem c6b_unreachable : ∀ n, ¬ Walk c6b.nb n 3 7 := by
+  intro n w
+  have := c6b_walk3 n 7 w
+  omega
+example : beamSimple c6b c6bi none 7 3
+    { beamWidth := 1, maxSteps := 4, returnPath := true, ball := none, select := fun _ _ => [0] } =
+    some { found := false, length := 0, path := none } := by beam_eval
+example : beamAdvanced c6b 3 7 { beamWidth := 2, maxSteps := 4, historyDepth := 0, select := fun _ _ => [0] } =
+    some { found := false, length := 4, path := none } := by beam_eval
+
+
+/-! ### exactness when the beam is never pruned -/
+
+/-- beam wider than every set it would hold, step budget ≥ distance ⇒ success with exactly the distance
+(simple mode, no ball; the simple beam has no "seen" filter, so the set held after `k` steps is the set of
+states reachable by a walk of exactly `k` edges) -/
+theorem beamSimple_exact_unpruned (g gi : Graph α) (h : PathHyp g gi) (invMap : Option (List Nat)) (central start : α)
+    (c : SimpleCfg α) (hb : c.ball = none) (d : Nat) (hd : DistLayer g.nb [start] d central) (hsteps : d ≤ c.maxSteps)
+    (hwide : ∀ (k : Nat) (L : List α), L.Nodup → (∀ x ∈ L, Reach g.nb [start] k x) → L.length < c.beamWidth) :
+    ∃ r, beamSimple g gi invMap central start c = some r ∧ r.found = true ∧ r.length = d := by
+  exact BW.beamSimple_exact_unpruned' g gi h invMap central start c hb d hd hsteps hwide
+
+/-- state 0 is at distance exactly 3 from state 3 on the 6-cycle -/
+theorem c6b_dist : DistLayer c6b.nb [3] 3 0 := by
+  refine ⟨⟨3, by simp, ?_⟩, ?_⟩
+  · have e1 : (2 : Nat) ∈ c6b.nb 3 := by decide
+    have e2 : (1 : Nat) ∈ c6b.nb 2 := by decide
+    have e3 : (0 : Nat) ∈ c6b.nb 1 := by decide
+    exact .snoc (.snoc (.snoc (.nil 3) e1) e2) e3
+  · rintro j hj ⟨s, hs, w⟩
+    rw [List.mem_singleton.1 hs] at w
+    have := c6b_walk3 j 0 w
+    omega
+
+/-- every duplicate-free list of states reachable from 3 has at most 6 entries -/
+theorem c6b_wide (k : Nat) (L : List Nat) (hn : L.Nodup) (hr : ∀ x ∈ L, Reach c6b.nb [3] k x) : L.length ≤ 6 := by
+  have hsub : L ⊆ List.range 6 := by
+    intro x hx
+    obtain ⟨s, hs, w⟩ := hr x hx
+    rw [List.mem_singleton.1 hs] at w
+    exact List.mem_range.2 (c6b_walk3 k x w).1
+  simpa using hn.length_le_of_subset hsub
+
+/-- non-vacuity: beam width 7 > 6 on the 6-cycle, 3 steps allowed, distance 3 (any score oracle) -/
+example (sel : Nat → List Nat → List Nat) :
+    ∃ r, beamSimple c6b c6bi none 0 3
+      { beamWidth := 7, maxSteps := 3, returnPath := true, ball := none, select := sel } = some r ∧
+      r.found = true ∧ r.length = 3 :=
+  beamSimple_exact_unpruned c6b c6bi c6b_pathHyp none 0 3 _ rfl 3 c6b_dist (Nat.le_refl _)
+    (fun k L hn hr => Nat.lt_succ_of_le (c6b_wide k L hn hr))
+example : beamSimple c6b c6bi none 0 3
+    { beamWidth := 7, maxSteps := 3, returnPath := true, ball := none, select := fun _ _ => [] } =
+    some { found := true, length := 3, path := some [0, 0, 0] } := by beam_eval
+/-- the step budget is needed: with `maxSteps = 2 < 3` the search gives up -/
+example : beamSimple c6b c6bi none 0 3
+    { beamWidth := 7, maxSteps := 2, returnPath := true, ball := none, select := fun _ _ => [] } =
+    some { found := false, length := 0, path := none } := by beam_eval
+/-- the width hypothesis is needed (and `<` cannot be relaxed to `≤`: the code prunes when
+`len(layer) ≥ beam_width`): with width 2 = size of the first layer and an oracle that keeps nothing, the beam dies -/
+example : beamSimple c6b c6bi none 0 3
+    { beamWidth := 2, maxSteps := 3, returnPath := true, ball := none, select := fun _ _ => [] } =
+    some { found := false, length := 0, path := none } := by beam_eval
+
+/-- advanced mode, for EVERY history depth: the history only bans states that appeared at an earlier step,
+i.e. states with a strictly shorter walk, so distance class `k` survives step `k` -/
+theorem beamAdvanced_exact_unpruned [DecidableEq α] (g : Graph α) (hinj : Function.Injective g.hash) (start dest : α)
+    (c : AdvCfg α) (d : Nat) (hd : DistLayer g.nb [start] d dest) (hsteps : d ≤ c.maxSteps)
+    (hwide : ∀ (k : Nat) (L : List α), L.Nodup → (∀ x ∈ L, Reach g.nb [start] k x) → L.length ≤ c.beamWidth) :
+    ∃ r, beamAdvanced g start dest c = some r ∧ r.found = true ∧ r.length = d := by
+  exact BW.beamAdvanced_exact_unpruned' g hinj start dest c d hd hsteps hwide
+
+/-- non-vacuity: beam width 6, any history depth, any oracle -/
+example (hdepth : Nat) (sel : Nat → List Nat → List Nat) :
+    ∃ r, beamAdvanced c6b 3 0 { beamWidth := 6, maxSteps := 3, historyDepth := hdepth, select := sel } = some r ∧
+      r.found = true ∧ r.length = 3 :=
+  beamAdvanced_exact_unpruned c6b c6b_pathHyp.inj 3 0 _ 3 c6b_dist (Nat.le_refl _) c6b_wide
+example : beamAdvanced c6b 3 0 { beamWidth := 6, maxSteps := 3, historyDepth := 2, select := fun _ _ => [] } =
+    some { found := true, length := 3, path := none } := by beam_eval
+
+end Cv
